@@ -73,6 +73,12 @@ def ift1d(cx, entry="rootfinder", placement="explicit", second=True, bck_method=
             return (a_ * y * y + b_ * y - c_) * k + nd * 0
         params = (a, b, c, 1.0, nondiff)
         fcn = f
+    elif placement == "explicit_nd_first":
+        # a non-differentiable tensor and a python number BEFORE the differentiable tensors
+        def f(y, nd, k, a_, b_, c_):
+            return (a_ * y * y + b_ * y - c_) * k + nd * 0
+        params = (nondiff, 1.0, a, b, c)
+        fcn = f
     elif placement == "nnmodule":
         mod = NNMod(a, b)
         leaves = [mod.a, mod.b, c]
@@ -183,6 +189,7 @@ def configs(tier):
 
     for entry in ("rootfinder", "equilibrium", "minimize"):
         add("ift1d/%s/explicit/2nd" % entry, ift1d, entry=entry, placement="explicit", second=True)
+    add("ift1d/rootfinder/explicit_nd_first", ift1d, entry="rootfinder", placement="explicit_nd_first", second=False)
     add("ift1d/rootfinder/nnmodule/2nd", ift1d, entry="rootfinder", placement="nnmodule", second=True)
     add("ift1d/rootfinder/editable/2nd", ift1d, entry="rootfinder", placement="editable", second=True)
     add("ift1d/rootfinder/explicit/bck_custom_exactsolve", ift1d, entry="rootfinder", placement="explicit", second=False,
